@@ -392,7 +392,7 @@ def run(ctx):
         return
     if drv is None:
         return
-    per_mode = 40 if ctx.quick else 500
+    per_mode = 60 if ctx.quick else 500
     if ctx.broken:
         per_mode *= 10   # search mode: a proof obligation broke, look harder for a failing input
     stats = {k: 0 for k in ["zero_insert", "insert_across_cons", "resize_into_stale", "clear_with_elements", "move_same",
